@@ -26,6 +26,8 @@ def canon_sig(sig):
         for cause in ("seterror-blocked-in-once-writing-disconnect", "readloop-blocked-sending-to-in"):
             if cause in sig.rsplit(":", 1)[-1].split("+"):
                 return cause
+    if sig.startswith(("unanswered:lock-wait:", "unanswered:lock-cycle:", "stop-hangs:lock-cycle")):
+        return "lock-cycle-stats-vs-subscription-store"
     if sig.startswith("c05:") or sig.startswith("no-close-after-protocol-error") or sig.startswith("unanswered"):
         return sig
     cause = sig.split(":", 1)[1] if ":" in sig else sig
@@ -235,6 +237,50 @@ def tlc_pack(ctx, pk, ops, dev, tag, workers=2, timeout=1500, target=None):
         with open(tj) as fh:
             ce = [s[1] for s in json.load(fh)["counterexample"]["state"]]
     return res, ce
+
+
+# ------------------------------------------------------------------------------------------------ lock order
+def extract_lockorder(ctx):
+    """harness/cmd/lockorder on server/stats.go -> the constants of spec/LockOrder.tla"""
+    bindir = ctx.go_build(["./cmd/lockorder"])
+    r = subprocess.run([os.path.join(bindir, "lockorder"), os.path.join(vlib.REPO, "server", "stats.go")],
+                       stdout=subprocess.PIPE, stderr=subprocess.PIPE, text=True)
+    if r.returncode != 0:
+        raise vlib.MachineryError("lockorder extraction failed: " + r.stderr[-2000:])
+    t = json.loads(r.stdout)
+    if not t.get("known_shape"):
+        raise vlib.MachineryError("lockorder: server/stats.go no longer has the functions LockOrder.tla speaks about (getClientStats, "
+                                  "GetClientStats, packetSent, addQueueLen): the model must be revisited")
+    return {"TouchReadsStore": bool(t["touch_reads_store"]), "ReadHoldsMu": bool(t["read_holds_mu"])}, t
+
+
+LOCK_KINDS = ["deliver", "subscribe", "touch", "statsread", "poll", "register"]
+
+
+def tlc_lockorder(ctx, consts, kinds, tag):
+    """model-check LockOrder.tla; returns (TlcResult, the path that holds `stats` in the stuck state or None)"""
+    tl = lambda b: "TRUE" if b else "FALSE"
+    body = "mc_Kinds == {%s}\n" % ", ".join(vlib.tla_str(k) for k in kinds)
+    cfg = ("SPECIFICATION Spec\nCONSTANTS\n TouchReadsStore = %s\n ReadHoldsMu = %s\n Kinds <- mc_Kinds\n"
+           "INVARIANTS NoLockCycle Exclusive\nPROPERTIES Finishes\nCHECK_DEADLOCK FALSE\n" % (tl(consts["TouchReadsStore"]), tl(consts["ReadHoldsMu"])))
+    name = "LockOrder_" + tag
+    tj = os.path.join(ctx.tmp("ce"), name + ".json")
+    res = ctx.tlc("LockOrder", body, cfg, name=name, workers=2, timeout=600, deadlock=True, extra=["-dumpTrace", "json", tj], extends="LockOrder")
+    if not res.violation:
+        return res, None
+    if not os.path.exists(tj):
+        raise vlib.MachineryError("TLC reported a violation on %s without a trace:\n%s" % (name, res.violation[:1500]))
+    with open(tj) as fh:
+        last = [s[1] for s in json.load(fh)["counterexample"]["state"]][-1]
+    return res, last["holder"].get("stats") or "?"
+
+
+def lock_scenarios(third, seed, n=2):
+    """the real-broker scenarios for a lock cycle whose third party (the holder of clientMu) is `third`"""
+    if third == "statsread":
+        return [{"id": "ce_lock_statsread", "kind": "lockorder", "conns": [dict(k=1, ver=5, cid="statsread")]}]
+    return [{"id": "ce_lock_touch_%d" % i, "kind": "pairs", "seed": 2 * (seed + i),
+             "storm": {"clients": 24, "ids": 4, "ops": 100, "api": 0, "stop_lo_ms": 0, "stop_hi_ms": 1}} for i in range(n)]
 
 
 def violated(res):
